@@ -15,10 +15,10 @@ ASSUME = [
 ]
 
 PROFILES = {
-    'C02': dict(max_steps=5, p_tag=0.15, p_waitfor=0.35, p_deployexpr=0.25, p_enabled=0.2, p_sum=0.6),
-    'C03': dict(max_steps=4, p_tag=0.1, p_multi=0.9, p_error=0.25, p_crash=0.12, p_deployfail=0.12, p_sum=0.5),
+    'C02': dict(max_steps=5, p_tag=0.15, p_waitfor=0.35, p_deployexpr=0.25, p_enabled=0.2, p_sum=0.6, p_loop=0.2),
+    'C03': dict(max_steps=4, p_tag=0.1, p_multi=0.9, p_error=0.25, p_crash=0.12, p_deployfail=0.12, p_sum=0.5, p_loop=0.25),
     'C04': dict(max_steps=5, p_tag=0.05, p_enabled=0.5, p_error=0.3, p_crash=0.15, p_deployfail=0.15, p_waitfor=0.3, p_stop=0.35),
-    'C08': dict(max_steps=4, p_tag=0.2, engine_outputs=True, p_error=0.2, p_crash=0.2, p_deployfail=0.2, p_enabled=0.4),
+    'C08': dict(max_steps=4, p_tag=0.2, engine_outputs=True, p_error=0.2, p_crash=0.2, p_deployfail=0.2, p_enabled=0.4, p_loop=0.25),
     'C15': dict(max_steps=4, min_steps=2, p_tag=0.7, p_error=0.25, p_alt=0.2, p_enabled=0.3, p_wait2=0.6, p_deployfail=0.1),
 }
 
@@ -27,9 +27,13 @@ def make_items(rng, profile, n, schedules):
     items = []
     for i in range(n):
         wf, oc, script, inp = gen.gen_workflow(rng, profile)
+        subwfs = wf.pop('_subwfs', None)
         for k in range(schedules):
             sch = gen.noise_schedule(rng, max_us=rng.choice([100, 400, 1500]), pct=rng.choice([20, 40]))
-            items.append({'wf': wf, 'oc': oc, 'script': script, 'input': inp, 'schedule': sch, 'pure': not profile.get('impure')})
+            it = {'wf': wf, 'oc': oc, 'script': script, 'input': inp, 'schedule': sch, 'pure': not profile.get('impure')}
+            if subwfs:
+                it['subwfs'] = subwfs
+            items.append(it)
     return items
 
 
@@ -46,7 +50,7 @@ def selftest(ctx, items, binary):
     class R(dict):
         pass
     r = {'trace': os.path.join(it['_dir'], 'trace.ndjson')}
-    cs = engine_check.cases_from_result(r, {'workflow.yaml': it['wf']}, [it['input']])
+    cs = engine_check.cases_from_result(r, dict({'workflow.yaml': it['wf']}, **(it.get('subwfs') or {})), [it['input']])
     if not cs:
         ctx.inconclusive('self-test: no case')
         return
@@ -118,6 +122,8 @@ def run_family_check(ctx, pid, n_quick, n_thorough, schedules_quick=1, schedules
         it = items[f['item']]
         rp = {'kind': 'scenario', 'item': {k: it[k] for k in ('wf', 'oc', 'script', 'input', 'schedule', 'extra') if k in it},
               'want': it.get('_want'), 'got': it.get('_got'), 'line': f.get('line')}
+        if it.get('subwfs'):
+            rp['item']['subwfs'] = it['subwfs']
         ctx.add(f['prop'], f['rule'], detail_fn(f, it) if detail_fn else f['detail'], rp)
     distinct = len({json.dumps([vlib.strip_wf(it['wf']), it['oc'], it.get('at') or it.get('stall') or ''], sort_keys=True) for it in items})
     ctx.cov(evaluations=stats['runs'], distinct_nontrivial=distinct,
